@@ -11,6 +11,8 @@ WORDS = ["Alpha", "Beta", "Gamma", "Delta", "Omega", "Zeta", "Kappa", "Sigma", "
          "Node", "Leader", "Epoch", "Offset", "Count", "Value", "State", "Index", "Group", "Member", "Record", "Quota", "Token"]
 ACRONYMS = ["ISR", "ID", "ACL", "TTL", "IP"]
 BUILTIN_WORDS = ["Type", "Id", "Filter", "Max", "Min", "Hash", "Format", "Input", "Object", "Range"]
+# words that are NOT builtins once lower-cased, although a capitalised spelling of them is (builtin names are case-sensitive)
+NEAR_BUILTIN_WORDS = ["Warning", "Exception", "None", "True", "False", "Ellipsis"]
 INT_TYPES = {"int8": (-(2**7), 2**7 - 1), "int16": (-(2**15), 2**15 - 1), "uint16": (0, 2**16 - 1), "int32": (-(2**31), 2**31 - 1),
              "uint32": (0, 2**32 - 1), "int64": (-(2**63), 2**63 - 1)}
 OTHER_TYPES = ["bool", "float64", "string", "uuid", "bytes", "records"]
@@ -21,7 +23,7 @@ def field_name(draw, used: set) -> str:
     for _ in range(50):
         kind = draw(st.integers(0, 9))
         if kind == 0:
-            name = draw(st.sampled_from(BUILTIN_WORDS))
+            name = draw(st.sampled_from(BUILTIN_WORDS + NEAR_BUILTIN_WORDS))
         elif kind == 1:
             name = draw(st.sampled_from(ACRONYMS)) + draw(st.sampled_from(WORDS))
         elif kind == 2:
@@ -82,8 +84,9 @@ def fields(draw, versions: list[int], flex: set[int], top: int, depth: int, stru
         lo, hi = draw(st.one_of(st.just((versions[0], versions[-1])), sub_range(versions, top)))
         fvers = [v for v in versions if lo <= v <= hi]
         f: dict = {"versions": spell_range(lo, hi, top, draw)}
-        shape = draw(st.integers(0, 11))
+        shape = draw(st.integers(0, 12))
         special = None
+        force_tag = False
         if shape <= 5:  # primitive
             if allow_special and draw(st.integers(0, 5)) == 0:
                 special = draw(st.sampled_from(["td", "dt", "err"]))
@@ -156,6 +159,37 @@ def fields(draw, versions: list[int], flex: set[int], top: int, depth: int, stru
                 ets = [k for k, (_n, base) in ENTITY_TYPES.items() if base == t]
                 if ets:
                     f["entityType"] = draw(st.sampled_from(ets))
+        elif shape == 12 and depth < 2:
+            # an inline struct made only of primitives with explicit defaults, usually tagged: the shape for which a tagged
+            # struct's implicit default is "the struct of its members' defaults" (ignorable or not)
+            f["name"] = draw(field_name(used))
+            sname = None
+            for _ in range(20):
+                cand = "Dft" + draw(st.sampled_from(WORDS)) + draw(st.sampled_from(["Data", "Info", "Entry", "Item", "Spec"]))
+                if cand not in struct_names:
+                    sname = cand
+                    struct_names.add(cand)
+                    break
+            if sname is None:
+                f["type"] = "int32"
+                out.append(f)
+                continue
+            f["type"] = sname
+            members, mused = [], set()
+            for _ in range(draw(st.integers(1, 3))):
+                mt = draw(st.sampled_from(["int8", "int16", "int32", "int64", "uint16", "bool", "float64", "string"]))
+                m = {"name": draw(field_name(mused)), "type": mt, "versions": spell_range(lo, hi, top, draw)}
+                if mt in INT_TYPES:
+                    m["default"] = draw(int_default(mt))
+                elif mt == "bool":
+                    m["default"] = draw(st.sampled_from(["true", "false"]))
+                elif mt == "float64":
+                    m["default"] = draw(st.sampled_from(["0.0", "1.5", "-2.5"]))
+                else:
+                    m["default"] = draw(st.sampled_from(["", "x", "default value"]))
+                members.append(m)
+            f["fields"] = members
+            force_tag = draw(st.integers(0, 3)) != 0
         else:  # struct / struct array, inline or common
             f["name"] = draw(field_name(used))
             array = shape in (8, 9, 10)
@@ -199,7 +233,7 @@ def fields(draw, versions: list[int], flex: set[int], top: int, depth: int, stru
                      and any(g["type"].startswith("[]") or "fields" in g or g["type"] in ("records", "uuid") or "nullableVersions" in g
                          for g in f["fields"]))
         )
-        if flex_vers and taggable and draw(st.integers(0, 3)) == 0:
+        if flex_vers and taggable and (force_tag or draw(st.integers(0, 3)) == 0):
             whole = flex_vers == fvers and draw(st.booleans())
             tlo = fvers[0] if whole else draw(st.sampled_from(flex_vers))
             f["tag"] = next_tag
